@@ -1763,7 +1763,7 @@ _RULE_OBSERVES = {
     'rule_05': (set(), 'empty state vectors (walks the package with _walk: R-C16-3)'),
     'rule_06': ({'previous'}, 'previous(): the references an algorithm declares are read'),
     'rule_07': ({'dumps', 'loads'}, 'unpicklable values: a value has to survive the round trip pickle.dumps -> pickle.loads'),
-    'rule_08': (set(), 'ill-typed references (walks the package with _walk: R-C16-3)'),
+    'rule_08': ({'isfunction', 'ismethod'}, 'ill-typed references: the factory of a *_REF is a plain function or a bound method (util.task_name reads its __module__ / __self__, Factories.resolve its __name__; a partial, a class or a callable object has none of them)'),
     'rule_09': ({'state_vectors'}, 'missing state vectors: the state vectors of every routine are read'),
     'rule_10': ({'events'}, 'schedule moments: every event of the package is read (field checks: R-C20-6)'),
     'rule_11': ({'as_vref'}, 'unresolvable references: references are expanded to value level before they are resolved'),
@@ -2482,6 +2482,7 @@ VARIANTS = [
     V('scanner skips modules it cannot import', 'B', 'pl/scan.py', 'advanced_factories', 'm = importlib.import_module(modinfo.name)', 'try:\n                    m = importlib.import_module(modinfo.name)\n                except ImportError:\n                    continue', 'R-C16-6'),
     V('scanner logs and re-raises', 'N', 'pl/scan.py', 'advanced_factories', 'm = importlib.import_module(modinfo.name)', 'try:\n                    m = importlib.import_module(modinfo.name)\n                except ImportError:\n                    LOG.error(modinfo.name)\n                    raise', None),
     V('AE root appended to sys.path', 'B', 'tools/compliant.py', 'main', 'sys.path.insert(\n        0, ', 'sys.path.insert(\n        len(sys.path), ', 'R-C16-5'),
+    V('rule_08 accepts any callable as a reference factory', 'B', 'tools/compliant.py', 'rule_08', 'inspect.isfunction(ref.factory) or inspect.ismethod(ref.factory)', 'callable(ref.factory)', 'R-C16-4'),
     V('rule_07 only dumps', 'B', 'tools/compliant.py', 'rule_07', 's = pickle.dumps(v)\n            vp = pickle.loads(s)  # noqa: F841', 'pickle.dumps(v)', 'R-C16-4'),
     V('rule_07 round trip in one expression', 'N', 'tools/compliant.py', 'rule_07', 's = pickle.dumps(v)\n            vp = pickle.loads(s)  # noqa: F841', 'pickle.loads(pickle.dumps(v))', None),
     V('rule_11 starts from "algorithm found"', 'B', _C, 'rule_11', 'resolved = [False]', 'resolved = [True]', 'R-C16-8'),
